@@ -361,9 +361,17 @@ def report_known(ctx, att, kind, detail):
 
 
 def where(att):
+    """Coarse place of a failure (for keys of history mechanisms)."""
     if att.exc is not None:
-        return symptom(att)
-    return generic_path(att.diffs[0][0]) if att.diffs else 'equal'
+        return type(att.exc).__name__
+    if not att.diffs:
+        return 'equal'
+    path = generic_path(att.diffs[0][0])
+    if '/flavor-' in path:
+        return 'qualifier-flavors'
+    if '/qualifier' in path:
+        return 'qualifier-values'
+    return path
 
 
 def run_object(ctx, envbox, kind, obj, decls, classes, maxline, tags,
@@ -490,27 +498,34 @@ def run_object(ctx, envbox, kind, obj, decls, classes, maxline, tags,
                           'times inside an escape sequence'
                           % (kind, describe(a3), a3.dangling), detail)
             return True
-    # ---- value kinds: is one of them alone the cause? --------------------
+    # ---- value kinds: does the failure go away (or change) without them? --
     if kind != 'qualifierdecl':
+        cur = obj
         for name, neutral in (
                 ('mof.reference.class-path', mofgen.without_class_paths),
                 ('mof.embedded-array.null-entry',
                  mofgen.without_null_embedded_entries)):
-            o4 = neutral(kind, obj)
+            o4 = neutral(kind, cur)
             if o4 is None:
                 continue
             a4 = attempt(ctx, envbox[0], kind, o4, decls, classes, HUGE)
             if a4.exc is not None:
                 envbox[0] = Env()
-            if a4.clean:
-                ctx.violation('%s:%s' % (name, symptom(final)),
+            if a4.clean or describe(a4) != describe(final):
+                what = name.split('.', 1)[1]
+                ctx.violation('%s:%s' % (name, type(final.exc).__name__
+                                         if final.exc is not None
+                                         else 'value-changed'),
                               '%s does not recompile to the same object '
-                              '(%s); without its %s values it does'
-                              % (kind, describe(final),
-                                 name.split('.', 1)[1]), detail)
-                ctx.outcome(name.split('.', 1)[1])
-                report_known(ctx, a4, kind, detail)
-                return False
+                              '(%s); without its %s values %s'
+                              % (kind, describe(final), what,
+                                 'it does' if a4.clean else
+                                 'another failure remains'), detail)
+                ctx.outcome(what)
+                cur, final = o4, a4
+                if a4.clean:
+                    report_known(ctx, a4, kind, detail)
+                    return False
     # ---- not one of the understood mechanisms -------------------------
     detail['unfolded'] = describe(final)
     detail['unfolded_mof'] = short(final.text or '', 2500)
